@@ -451,8 +451,9 @@ class RaceHarness(Harness):
             {"task": {"name": "t0", "op": "sim-op", "clients": 2, "iterations": 3, "tags": [], "sim": {"task": "t0", "unit": "ops"}}},
             {"task": {"name": "t1", "op": "sim-op", "clients": 1, "iterations": 1, "tags": [], "sim": {"task": "t1", "unit": "ops"}}},
         ]
-        short["knobs"] = dict(short["knobs"], stall_p=0.3, worker_wakeup=0.5, driver_wakeup=0.3)
-        for rep in range(12):
+        short["knobs"] = dict(short["knobs"], stall_p=0.5, worker_wakeup=0.5, driver_wakeup=0.3)
+        short["hosts"], short["host_clocks"], short["cores"] = ["localhost"], [{}], 1
+        for rep in range(40):
             c = json.loads(json.dumps(short))
             c["fault"] = {"kind": "rc-store-raise", "at_call": 1, "rep": rep}
             yield c
